@@ -60,9 +60,31 @@ def wrap_deep(kind_js):
     }
 
 
+def float_double_unions():
+    """Unions holding both float and double, in every spelling of the two
+    primitives, with Python floats that are not single-precision values."""
+    out = []
+    vals = [0.1, 3.141592653589793, 1e-310, 1e200, -1e200, 0.5, 3.4028235677973366e38, float("inf")]
+    spell = {"plain": lambda p: p, "dict": lambda p: {"type": p}, "dict_doc": lambda p: {"type": p, "doc": "spelled out"}}
+    k = 0
+    for fs in spell:
+        for ds in spell:
+            for order in ("fd", "df", "nfd", "fsd"):
+                f, d = spell[fs]("float"), spell[ds]("double")
+                u = {"fd": [f, d], "df": [d, f], "nfd": ["null", f, d], "fsd": [f, "string", d]}[order]
+                v = vals[k % len(vals)]
+                k += 1
+                feats = {"union_float_double", "union_float_double_" + fs + "_" + ds}
+                out.append((u, v, feats))
+                out.append(({"type": "record", "name": "FD", "fields": [
+                    {"name": "m", "type": {"type": "map", "values": u}}, {"name": "a", "type": {"type": "array", "items": u}}]},
+                    {"m": {"k": v, "l": vals[(k + 3) % len(vals)]}, "a": [v, vals[(k + 1) % len(vals)]]}, feats))
+    return out
+
+
 def boundary_cases():
     """Deterministic boundary stratum (independent of the seed)."""
-    out = []
+    out = float_double_unions()
     for kind in ("int", "long", "float", "double", "string", "bytes", "boolean", "null"):
         vals = boundary_data(kind)
         # top level, one value at a time
